@@ -89,6 +89,18 @@ func TakeSnapshot(keepDump bool) Snapshot {
 		}
 		s.Total++
 		name := string(st)
+		if name == "semacquire" {
+			// before Go 1.24 sync.WaitGroup.Wait parks with the generic reason "semacquire"; that one is a
+			// real block. Any other semacquire (worldsema, gcsema, ...) is not.
+			end := bytes.Index(b, []byte("\n\n"))
+			frames := b
+			if end >= 0 {
+				frames = b[:end]
+			}
+			if bytes.Contains(frames, []byte("sync.(*WaitGroup).Wait")) {
+				name = "sync.WaitGroup.Wait"
+			}
+		}
 		s.States[name]++
 		if !blockedStates[name] {
 			s.NotQuiet++
